@@ -11,6 +11,7 @@ Yield points (the only places where the baton may change hands):
   * explicit Sim.yield_point()/work()/sleep() calls from the driver and from
     instrumented user functions.
 """
+import os
 import sys
 import gc
 import time
@@ -603,6 +604,10 @@ class SimThread(_RealThread):
         return self is other
 
 
+_MISSING = object()
+_THREAD_SEAMS = ('start', 'join', 'is_alive', '__hash__', '__eq__', '_sim_ts', 'sim_role')
+
+
 # ------------------------------------------------------------ time seams
 def _sim_sleep(d):
     sim = SIM
@@ -647,6 +652,15 @@ def simulation(sim, extra_patches=()):
     threading._allocate_lock = SimLock
     threading._CRLock = None
     threading.Thread = SimThread
+    # Thread subclasses that were defined before the simulation started (at
+    # import time of the code under test) inherit from the real class: give
+    # that class the simulated behaviour for the duration of the run
+    base_saved = {}
+    for k in _THREAD_SEAMS:
+        if os.environ.get('DSIM_DEBUG_NO_BASE_THREAD_SEAM'):
+            break       # debugging aid: shows what an unsimulated thread does to a run
+        base_saved[k] = _RealThread.__dict__.get(k, _MISSING)
+        setattr(_RealThread, k, SimThread.__dict__[k])
     queue.SimpleQueue = queue._PySimpleQueue
     cft._global_shutdown_lock = SimLock()
     time.sleep = _sim_sleep
@@ -677,6 +691,11 @@ def simulation(sim, extra_patches=()):
             threading._allocate_lock = saved['alloc']
             threading._CRLock = saved['cr']
             threading.Thread = saved['Thread']
+            for k, v in base_saved.items():
+                if v is _MISSING:
+                    delattr(_RealThread, k)
+                else:
+                    setattr(_RealThread, k, v)
             queue.SimpleQueue = saved['sq']
             cft._global_shutdown_lock = saved['gsl']
             time.sleep = saved['sleep']
